@@ -17,6 +17,7 @@ import (
 	"net"
 	"net/http"
 	"os"
+	"strconv"
 	"strings"
 	"sync"
 	"time"
@@ -511,9 +512,36 @@ func c20verifies(hash, pw string) bool {
 	if len(p) != 6 || p[1] != "argon2id" {
 		return false
 	}
-	var m, t, l uint32
-	var par uint8
-	if _, err := fmt.Sscanf(p[3], "m=%d,t=%d,p=%d,l=%d", &m, &t, &par, &l); err != nil || m == 0 || t == 0 || par == 0 || m > 1<<16 {
+	// parameters: m, t, p required in any order; l and unknown keys are optional (the PHC format allows extensions)
+	var m, t, par uint64
+	for _, seg := range strings.Split(p[3], ",") {
+		k, v, ok := strings.Cut(seg, "=")
+		if !ok {
+			if seg == "" {
+				continue
+			}
+			return false
+		}
+		n, err := strconv.ParseUint(v, 10, 32)
+		switch k {
+		case "m":
+			if err != nil {
+				return false
+			}
+			m = n
+		case "t":
+			if err != nil {
+				return false
+			}
+			t = n
+		case "p":
+			if err != nil || n > 255 {
+				return false
+			}
+			par = n
+		}
+	}
+	if m == 0 || t == 0 || par == 0 || m > 1<<16 || t > 4 {
 		return false
 	}
 	salt, err1 := base64.RawStdEncoding.DecodeString(p[4])
@@ -521,7 +549,7 @@ func c20verifies(hash, pw string) bool {
 	if err1 != nil || err2 != nil || len(want) == 0 {
 		return false
 	}
-	return bytes.Equal(argon2.IDKey([]byte(pw), salt, t, m, par, uint32(len(want))), want)
+	return bytes.Equal(argon2.IDKey([]byte(pw), salt, uint32(t), uint32(m), uint8(par), uint32(len(want))), want)
 }
 
 // ---- cross-site --------------------------------------------------------------------------------------
